@@ -46,4 +46,20 @@ CHECKS = {
              "timeout_quick": 300, "timeout_thorough": 1500},
         ],
     },
+    "C04": {
+        "level": "exploration",
+        "technique": "property-based testing of operation sequences with a white-box replica-equality invariant (rapid)",
+        "level_text": ("Generated sequences of mutating operations (Put with every option combination, Expire, GetPut, Incr/Decr/IncrByFloat, Delete, Lock/Unlock/Lease, "
+                       "ttl expiry followed by an eviction scan, LRU eviction) run through random entry paths of a real in-process cluster with R = 2..3; after every operation the raw entry of every key "
+                       "is decoded on the primary owner and on every backup owner and must agree in key, value, ttl and timestamp, absent on a backup iff absent on the primary; DM.GETENTRY vs DM.GETENTRY RC is the behavioural twin."),
+        "level_note": "trusted: harness accessors that read the fragments under their read lock; comparison only on a stable snapshot (primary read before and after the backups)",
+        "rule": ("case = (cluster shape incl. optional LRU limit, 1-3 keys, 3-25 operations each with a path); non-trivial: R >= 2 (always) and the sequence applies an operation other than a plain Put "
+                 "to an existing key (conditional/expiring Put, Expire, GetPut, Incr, Delete, Lock, eviction ...); distinct = distinct case hash"),
+        "assumptions": ["last-access stamps are not compared (the statement does not include them)"],
+        "parts": [
+            {"name": "mirror", "pkg": ROOT, "test": "TestVerifC04", "kind": "rapid",
+             "checks_quick": 100, "checks_thorough": 2500, "shards_quick": 8, "shards_thorough": 16,
+             "timeout_quick": 300, "timeout_thorough": 1800},
+        ],
+    },
 }
